@@ -1,6 +1,7 @@
 //! Scheduler for spawning tasks on the worker pool.
 
 use std::sync::Arc;
+use std::sync::atomic::Ordering;
 
 use tracing::trace;
 
@@ -206,6 +207,12 @@ impl Scheduler {
         // Notify one worker that work is available.
         state.wake_event.notify(1);
 
+        // If the pool shut down in the meantime, its workers may already be gone and nobody
+        // would ever run or drop the task we just queued. Queued tasks are abandoned at shutdown.
+        if self.inner.shutdown.load(Ordering::Acquire) {
+            state.abandon_queued_tasks();
+        }
+
         JoinHandle::new(receiver)
     }
 
@@ -269,6 +276,12 @@ impl Scheduler {
 
         // Notify one worker that work is available.
         state.wake_event.notify(1);
+
+        // If the pool shut down in the meantime, its workers may already be gone and nobody
+        // would ever run or drop the task we just queued. Queued tasks are abandoned at shutdown.
+        if self.inner.shutdown.load(Ordering::Acquire) {
+            state.abandon_queued_tasks();
+        }
     }
 }
 
